@@ -239,6 +239,15 @@ class C08(Prop):
                 for tgt in ('loop', 'stopper'):
                     if tgt != s0.owners.get(a):
                         out.append(dict(base, preempt=[[a, tgt]]))
+        if tier == 'thorough':
+            # all two-pre-emption schedules of one scenario: the stopper cuts in at a, the loop takes over again at b
+            base = dict(scen[1], sched=1)
+            s0, _, _ = _sched_run(base, {}, record_owner=True)
+            for a in range(1, s0.steps + 1):
+                if s0.owners.get(a) != 'loop':
+                    continue
+                for b in range(a + 1, a + 90):
+                    out.append(dict(base, preempt=[[a, 'stopper'], [b, 'loop']]))
         return out
 
     def strategy(self, tier):
